@@ -1,17 +1,32 @@
 /* C04 / H04.mtf: the PMarc move-to-front history (lib/pma_common.c) refines a plain ordered list.
  *
- * Ghost state: ord[256] = the byte value at each rank (rank 0 = most recent), pos[256] = its inverse.
- * "list consistent with ord":  history_head == ord[0] and for every rank r
- *      history[ord[r]].prev == ord[r+1 mod 256]   (prev = one step further back in time)
- *      history[ord[r]].next == ord[r-1 mod 256].
- * All three harnesses run at the REAL size (256 values):
- *   harness_init    init_history_list gives the fixed PMarc start order and a consistent list (concrete).
- *   harness_update  from an ARBITRARY consistent list (arbitrary permutation ord), update_history_list(b) leaves a
- *                   list consistent with move-to-front of b (checked at an arbitrary rank r, i.e. for all ranks).
- *   harness_find    from an arbitrary consistent list, find_in_history_list(c) == ord[c] for every c, which
- *                   exercises both walk directions (c < 128 backwards up to 127 steps, c >= 128 forwards up to 128).
- * Induction: init establishes consistency, update preserves it with ord := mtf(ord, b); so after any output
- * history the list denotes exactly the recency order, and find returns the value at the coded rank. */
+ * Abstract state: ord = the sequence of all 256 byte values by recency (rank 0 = most recent).
+ * "list consistent with ord":  history_head == ord[0] and for every rank x
+ *      history[ord[x]].prev == ord[x+1 mod 256]   (prev = one step further back in time)
+ *      history[ord[x]].next == ord[x-1 mod 256].
+ *
+ *   harness_init    REAL SIZE, concrete: init_history_list gives the fixed PMarc start order, consistently linked.
+ *   harness_update  REAL SIZE, inductive step, arbitrary list contents: update_history_list(b) with b at an
+ *                   arbitrary rank k leaves, at an arbitrary rank r (= at every rank), exactly the links of
+ *                   move-to-front(ord, k).  The update is local, so the pre-state is constrained only where it
+ *                   matters: ord is given at the eight ranks k-1, k, k+1, 0, 255, s-1, s, s+1 (s = old rank of
+ *                   the value that ends up at rank r), injective there, and the list is consistent with it at
+ *                   ranks k, 0 and s; the other ~500 links are arbitrary.  This precondition is WEAKER than full
+ *                   consistency with a permutation, so the statement proved is stronger.
+ *                   (Why not a ghost array ord[256]: with CBMC 6.11 every symbolic index into a 256-entry array
+ *                   is a 256-way multiplexer; minisat/cadical/z3 did not decide the array formulation in 300 s,
+ *                   and --arrays-uf-always crashes on arrays of structs.  The eight (rank, value) pairs with the
+ *                   explicit "same rank <=> same value" constraint are the Ackermann expansion of that array.)
+ *   harness_walk    arbitrary list contents, BOUNDED walks: find_in_history_list(c) from an arbitrary list in
+ *                   which the WALK_MAX nodes behind / ahead of the head are ord[1..], ord[255..]: result is
+ *                   ord[c] for c <= WALK_MAX (prev direction) and c >= 256 - WALK_MAX (next direction).
+ *   harness_find    REAL SIZE, concrete lists: find_in_history_list(c) for ALL 256 c (so both directions at full
+ *                   length, 127 steps back, 128 steps forward, and the direction switch at 128) on the initial
+ *                   list and after each of a series of real update_history_list calls, against a plain array
+ *                   moved to front by pma_ref_mtf_source_rank.
+ * Not decided by the solver: a full-length walk (7..249 steps) over ARBITRARY list contents - each of its steps
+ * is the same single link dereference that harness_walk covers from an arbitrary node, and the full-length walks
+ * are executed on concrete lists in harness_find. */
 #include "verif.h"
 #include <stdint.h>
 #include <string.h>
@@ -21,21 +36,11 @@
 static unsigned PMA_BITS(unsigned p, unsigned n) { (void) p; (void) n; return 0; }
 #include "pma_ref.h"
 
-static HistoryLinkedList list;
+#ifndef WALK_MAX
+#define WALK_MAX 6
+#endif
 
-/* consistency of the list with ord at one rank x */
-static void assume_consistent_at(const u8 *ord, unsigned x)
-{
-	x &= 255;
-	ASSUME(list.history[ord[x]].prev == ord[(x + 1) & 255]);
-	ASSUME(list.history[ord[x]].next == ord[(x + 255) & 255]);
-}
-/* pos is the inverse of ord at rank x (so the value at rank x occurs at no other rank) */
-static void assume_inverse_at(const u8 *ord, const u8 *pos, unsigned x)
-{
-	x &= 255;
-	ASSUME(pos[ord[x]] == x);
-}
+static HistoryLinkedList list;
 
 void harness_init(void)
 {
@@ -49,60 +54,112 @@ void harness_init(void)
 		code = list.history[code].prev;
 	}
 	CHECK(code == list.history_head, "C04: initial list is cyclic over all 256 values");
-	CHECK(find_in_history_list(&list, 0) == 0x20 && find_in_history_list(&list, 96) == 0x00 && find_in_history_list(&list, 255) == 0xff, "C04: lookups in the initial list");
 	WITNESS("end");
+}
+
+/* ghost: ord at eight ranks */
+static unsigned need[8];
+static u8 val[8];
+static int val_found;
+static u8 ord_at(unsigned rank)
+{
+	unsigned i;
+	rank &= 255;
+	for (i = 0; i < 8; ++i) if (need[i] == rank) return val[i];
+	val_found = 0;
+	return 0;
 }
 
 void harness_update(void)
 {
-	INPUT_ARRAY(u8, ord, 256);
-	INPUT_ARRAY(u8, pos, 256);
-	INPUT(u8, b);
-	INPUT(u8, r);
+	INPUT_ARRAY(u8, v, 8);
+	INPUT(u8, k);                                  /* rank of the byte that is output next */
+	INPUT(u8, r);                                  /* rank at which the result is inspected (arbitrary = all) */
 	HistoryLinkedList l0;                          /* arbitrary list (uninitialised = nondet) */
-	unsigned k, s0, here, back, fwd, i;
-	unsigned need[8];
+	unsigned s, i, j;
+	u8 b, here;
 	list = l0;
-	k = pos[b];                                    /* rank of b before the update */
-	ASSUME(ord[k] == b);
-	s0 = pma_ref_mtf_source_rank(r, k);            /* old rank of the value that ends up at rank r */
-	/* The update is local: it rewrites the links of b, its two neighbours, the head and the tail.  The list is
-	 * assumed consistent with the permutation ord only at the ranks involved (k-1, k, k+1, 0, 255) and at the
-	 * probed rank - a WEAKER assumption than full consistency, hence a stronger statement; r is arbitrary. */
-	need[0] = k; need[1] = k + 1; need[2] = k + 255; need[3] = 0; need[4] = 255; need[5] = s0; need[6] = s0 + 1; need[7] = s0 + 255;
-	ASSUME(list.history_head == ord[0]);
-	for (i = 0; i < 8; ++i) { assume_consistent_at(ord, need[i]); assume_inverse_at(ord, pos, need[i]); }
+	s = pma_ref_mtf_source_rank(r, k);
+	need[0] = k; need[1] = (k + 1u) & 255; need[2] = (k + 255u) & 255; need[3] = 0; need[4] = 255;
+	need[5] = s; need[6] = (s + 1) & 255; need[7] = (s + 255) & 255;
+	for (i = 0; i < 8; ++i) val[i] = v[i];
+	/* ord restricted to these ranks is a well-defined injective map */
+	for (i = 0; i < 8; ++i) for (j = 0; j < i; ++j) ASSUME((need[i] == need[j]) == (val[i] == val[j]));
+	val_found = 1;
+	/* list consistent with ord at ranks k, 0 (next link: the tail) and s */
+	list.history_head = ord_at(0);
+	list.history[ord_at(k)].prev = ord_at(k + 1u);
+	list.history[ord_at(k)].next = ord_at(k + 255u);
+	list.history[ord_at(0)].next = ord_at(255);
+	list.history[ord_at(s)].prev = ord_at(s + 1);
+	list.history[ord_at(s)].next = ord_at(s + 255);
+	b = ord_at(k);
+
 	update_history_list(&list, b);
-	/* new order = move-to-front of rank k */
-	here = ord[s0];
-	back = ord[pma_ref_mtf_source_rank((r + 1u) & 255, k)];
-	fwd = ord[pma_ref_mtf_source_rank((r + 255u) & 255, k)];
+
+	here = ord_at(s);                              /* value now at rank r */
 	CHECK(list.history_head == b, "C04: the byte just output has rank 0");
-	CHECK(list.history[here].prev == back, "C04: after update the list is the move-to-front order (prev links)");
-	CHECK(list.history[here].next == fwd, "C04: after update the list is the move-to-front order (next links)");
+	CHECK(list.history[here].prev == ord_at(pma_ref_mtf_source_rank((r + 1u) & 255, k)), "C04: after update the list is the move-to-front order (prev links)");
+	CHECK(list.history[here].next == ord_at(pma_ref_mtf_source_rank((r + 255u) & 255, k)), "C04: after update the list is the move-to-front order (next links)");
+	CHECK(val_found, "harness: every rank consulted is one of the eight ghost ranks");
 	if (k == 0) WITNESS("b already at the front");
 	if (k == 255 && r == 255) WITNESS("oldest value moved to the front, checked at the new tail");
+	if (k == 1 && r == 1) WITNESS("second value moved, old head inspected");
 	if (k == 100 && r == 100) WITNESS("checked at the seam rank");
-	if (k == 1 && r == 0) WITNESS("second value moved, checked at the head");
 	WITNESS("end");
 }
 
-void harness_find(void)
+void harness_walk(void)
 {
-	INPUT_ARRAY(u8, ord, 256);
+	INPUT_ARRAY(u8, back, WALK_MAX + 1);           /* back[i] = ord[i] */
+	INPUT_ARRAY(u8, fwd, WALK_MAX + 1);            /* fwd[i] = ord[256 - i mod 256] */
 	INPUT(u8, c);
 	HistoryLinkedList l0;
-	unsigned x;
-	u8 v;
+	unsigned i, j;
+	u8 got;
 	list = l0;
-	/* consistency along the two walks only: ranks 0..127 backwards (prev), ranks 0, 255, ..., 128 forwards (next) */
-	ASSUME(list.history_head == ord[0]);
-	for (x = 0; x < 128; ++x) ASSUME(list.history[ord[x]].prev == ord[x + 1]);
-	for (x = 0; x < 128; ++x) ASSUME(list.history[ord[(256 - x) & 255]].next == ord[255 - x]);
-	v = find_in_history_list(&list, c);
-	CHECK(v == ord[c], "C04: find_in_history_list(c) is the value of rank c");
-	if (c == 127) WITNESS("longest backward walk");
-	if (c == 128) WITNESS("longest forward walk");
-	if (c == 0) WITNESS("rank 0");
+	ASSUME(c <= WALK_MAX || c >= 256 - WALK_MAX);
+	ASSUME(back[0] == fwd[0]);
+	/* distinct ranks hold distinct values (ranks 0..WALK_MAX and 256-WALK_MAX..255 are all different) */
+	for (i = 0; i <= WALK_MAX; ++i) for (j = 0; j <= WALK_MAX; ++j) {
+		if (j < i) { ASSUME(back[i] != back[j]); ASSUME(fwd[i] != fwd[j]); }
+		if (i > 0 && j > 0) ASSUME(back[i] != fwd[j]);
+	}
+	list.history_head = back[0];
+	for (i = 0; i < WALK_MAX; ++i) {
+		list.history[back[i]].prev = back[i + 1];
+		list.history[fwd[i]].next = fwd[i + 1];
+	}
+	got = find_in_history_list(&list, c);
+	if (c <= WALK_MAX) CHECK(got == back[c], "C04: find_in_history_list(c) is the value of rank c (walk along prev)");
+	else CHECK(got == fwd[256 - c], "C04: find_in_history_list(c) is the value of rank c (walk along next, 256-c steps)");
+	if (c == WALK_MAX) WITNESS("longest bounded backward walk");
+	if (c == 256 - WALK_MAX) WITNESS("longest bounded forward walk");
+	WITNESS("end");
+}
+
+static u8 ref_order[256];
+static void check_all_ranks(void)
+{
+	unsigned c;
+	for (c = 0; c < 256; ++c) {
+		CHECK(find_in_history_list(&list, (u8) c) == ref_order[c], "C04: find_in_history_list(c) is the value of rank c, all c, full-length walks (concrete list)");
+	}
+}
+void harness_find(void)
+{
+	static const u8 outputs[] = { 'e', 'e', 0x00, 0xff, ' ', 0x9f, 'e', 0xa0, 0x20, 0x7f };
+	unsigned c, n, k;
+	u8 tmp[256];
+	init_history_list(&list);
+	for (c = 0; c < 256; ++c) ref_order[c] = (u8) pma_ref_initial_order(c);
+	check_all_ranks();
+	for (n = 0; n < sizeof(outputs); ++n) {
+		update_history_list(&list, outputs[n]);
+		for (k = 0; ref_order[k] != outputs[n]; ++k) { }
+		for (c = 0; c < 256; ++c) tmp[c] = ref_order[pma_ref_mtf_source_rank(c, k)];
+		for (c = 0; c < 256; ++c) ref_order[c] = tmp[c];
+		check_all_ranks();
+	}
 	WITNESS("end");
 }
